@@ -12,7 +12,10 @@ from ..lang import refint
 PAYLOADS = ["int", "str", "list", "obj"]
 CARRIERS = ["var", "param", "result", "elem", "field", "builtin", "literal"]
 CONSTRUCTS = ["eqnil", "neqnil", "get", "or", "or-var", "or-chain", "unwrap-stmt", "unwrap-if", "unwrap-while", "unwrap-expr",
-              "eq-plain", "plain-eq", "or-operand"]
+              "eq-plain", "plain-eq", "or-operand",
+              # compositions: `get` applied directly to an `or` form whose fallback is a plain value / an optional variable (nil, present) / an optional
+              # result (nil, present); the value of such an `or` form compared with nil.  Where the type checker refuses an optional fallback the case is skipped.
+              "get-or-plain", "get-or-optvar-nil", "get-or-optvar-present", "get-or-result-nil", "get-or-result-present", "or-optvar-eqnil"]
 MINPAREN_CONSTRUCTS = {"or-operand"}     # rendered with minimal parentheses: the construct is about how `or` groups with its neighbours
 POSITIONS = ["same", "block", "loop", "else", "block2", "fn", "escaped"]
 
@@ -117,6 +120,12 @@ def construct_stmts(payload, construct, X, carrier, is_present):
         if payload == "str":
             return [("print", ("bin", "+", ("str", "p-"), ("or", X, fb))), ("print", ("bin", "==", ("str", "s"), ("or", X, fb)))]
         return None
+    if construct.startswith("get-or-") or construct == "or-optvar-eqnil":
+        fb = {"get-or-plain": ("call", V("lg"), [("int", 7)]), "get-or-optvar-nil": V("zqn"), "get-or-optvar-present": V("zqp"),
+              "get-or-result-nil": ("call", V("mk"), [("int", 0)]), "get-or-result-present": ("call", V("mk"), [("int", 1)]), "or-optvar-eqnil": V("zqn")}[construct]
+        if construct == "or-optvar-eqnil":
+            return [("print", ("bin", "==", ("or", X, fb), ("nil",))), ("print", ("bin", "!=", ("or", X, V("zqp")), ("nil",)))]
+        return [("print", ("str", "before"))] + observe(payload, ("get", ("or", X, fb)), "gor") + [("print", ("str", "after"))]
     if construct == "or-chain":
         inner = ("or", X, ("call", V("mk"), [("int", 0)]))
         return observe(payload, ("or", inner, ("call", V("lg"), [("int", 8)])), "orc")
@@ -192,6 +201,8 @@ def build(case):
         placed = place(position, body)
     if construct == "or-var":
         setup = setup + [("assign", "dflt", present(payload, True), None, ())]
+    if "optvar" in construct:
+        setup = setup + [("assign", "zqn", ("nil",), T + "?", ()), ("assign", "zqp", present(payload, True), T + "?", ())]
     if position == "escaped":
         # carrier and fallback are locals of a function that has returned by the time the construct runs inside the closure it made
         if wrap == "param" or decl_outside:
@@ -229,7 +240,7 @@ class C12(Check):
     rule = ("all programs (payload in {int, str, [int...], class C}) x (carrier in {variable, parameter, function result, list element, "
             "field, built-in result (index_of), literal}) x (nil | present) x (construct in {== nil (both operand orders), != nil, get, "
             "(x) or y with a logging y, (x) or v with a variable mentioned nowhere else, chained or, ?= as statement / expression value / if condition / while condition, present == plain, "
-            "plain == present}) x (position in {declaring block, nested block, else block, doubly nested block, loop body, nested function, closure called after the function that made it (and owns carrier and fallback) has returned}) "
+            "plain == present, `get` applied directly to an `or` form with a plain / optional-variable (nil, present) / optional-result (nil, present) fallback, an `or` form with an optional fallback compared with nil}) x (position in {declaring block, nested block, else block, doubly nested block, loop body, nested function, closure called after the function that made it (and owns carrier and fallback) has returned}) "
             "x (?= target declared in the same block | in the enclosing block).  Oracle = reference interpreter; for a failing `get` the "
             "error must name file and line of that `get` with a column inside it.")
     assumptions = ["objects are observed through a field, never printed", "the column of a failing get may point anywhere inside the get expression"]
@@ -322,7 +333,9 @@ class C12(Check):
                 errs.append(f"vacuity: carrier {k} never executed")
         rej = stats["tags"].get("rejected", 0)
         ok = stats["evaluations"] - stats["outcomes"].get("inexpressible", 0)
-        if rej > ok * 0.25:
+        # an optional fallback of `or` is refused by the type checker unless the primary is the literal nil: those compositions are expected to be mostly rejected
+        opt_fb = sum(v for k, v in stats["tags"].items() if k.startswith("rej-") and ("get-or-optvar" in k or "get-or-result" in k or "or-optvar" in k))
+        if rej - opt_fb > ok * 0.25:
             errs.append(f"vacuity: {rej} of {ok} generated programs rejected by the compiler")
         stats["extra_coverage"] = {"states": stats["counters"].get("states", 0), "transitions": stats["counters"].get("transitions", 0),
                                    "traces_validated_against_impl": ok - rej, "rejected_by_compiler": rej,
